@@ -23,6 +23,8 @@ def h_res(cfg):
     nv = [0]
 
     def num(name):
+        if name in (cfg.get('concrete') or {}):
+            return cfg['concrete'][name]          # long histories: most instants concrete, a few symbolic
         i = nv[0]
         nv[0] += 1
         return sym_num(name, sort_of(sorts, i), 0)
@@ -278,6 +280,18 @@ def jobs(tier, seed):
                 js.append({'harness': 'res', 'weight': 100,
                            'cfg': {'kind': kind, 'capacity': 1, 'scripts': ['hold', mid, 'hold'], 'sorts': 'int',
                                    'fixed': {'0': [2, 0], '1': [0, 0], '2': [1, 1]}}})
+        # priorities need not be integers (0.7 and 0.2 share their integer part)
+        if kind != 'res':
+            js.append({'harness': 'res', 'weight': 60,
+                       'cfg': {'kind': kind, 'capacity': 1, 'scripts': ['hold', 'hold', 'hold'], 'sorts': 'int',
+                               'fixed': {'0': [0.9, 0], '1': [0.7, 0], '2': [0.2, 1 if kind == 'preempt' else 0]}}})
+        # long waiting lines: seven users, five or six of them queued at once (sorted queue of priorities with ties),
+        # most instants and priorities concrete, two priorities and two instants symbolic
+        if kind != 'res' or tier != 'quick':
+            conc = {'a0': 0, 'a1': 1, 'a2': 1, 'a3': 2, 'a5': 3, 'a6': 3, 'h0': 10, 'h1': 1, 'h2': 2, 'h4': 1, 'h5': 0, 'h6': 2}
+            fixed = {'0': [5, 0], '1': [3, 0], '2': [3, 1 if kind == 'preempt' else 0], '4': [1, 0], '5': [3, 0], '6': [0, 0]}
+            js.append({'harness': 'res', 'weight': 200, 'opts': {'max_paths': 6000},
+                       'cfg': {'kind': kind, 'capacity': 1, 'scripts': ['hold'] * 7, 'sorts': 'int', 'concrete': conc, 'fixed': fixed}})
         # a user of a with-block interrupted from outside at a symbolic instant (before, at and after its grant)
         for sc, tgt in ((('hold', 'with', 'hold'), 1), (('hold', 'with'), 1), (('with', 'with', 'hold'), 1)):
             if kind == 'preempt' and len(sc) == 3 and tier == 'quick':
